@@ -366,3 +366,27 @@ Print Assumptions C13_simple_union_children_aligned.
 Print Assumptions C13_compositional_phrase.
 Print Assumptions C13_phrase_seek_danger.
 Print Assumptions C13_phrase_count_path_independent.
+
+(* ===== appended (round 4): seek_danger with a target below the child's document ===== *)
+From TV Require Import DocSet.Probe.
+
+(* the trait states no `target >= doc()` precondition for seek_danger, and two real callers do ask below the child's
+   document (probe wrapper counting such calls, on the models of the callers): Exclude::contains ... *)
+Theorem C13_exclude_asks_below_doc :
+  below_calls (x_exc PL PL (x_new PL PL (pleaf [5; 9]) [pleaf [7]])) = 1%nat.
+Proof. exact exclude_asks_below_doc. Qed.
+(* ... and the out-of-horizon loop of BufferedUnionScorer::seek_danger (`+a +(x y)`) *)
+Theorem C13_union_asks_children_below_doc :
+  piu_below piu_state = 0%nat /\ (1 <= piu_below (advance (inter_impl PIU) piu_state))%nat /\
+  doc (inter_impl PIU) (advance (inter_impl PIU) piu_state) = 9000.
+Proof. exact union_asks_children_below_doc. Qed.
+
+(* so every implementation has to tolerate it (clause c_danger_below of the contract); PhraseScorer's code (without its
+   debug_assert) does: never Found, the valid state is kept *)
+Theorem C13_phrase_seek_danger_below :
+  forall (I : impl) strong RI DI, contract I strong RI DI -> forall (count_of : N -> N) (scoring : bool) s l t,
+  R_p I RI count_of scoring s l -> t < p_doc I s ->
+  exists b, fst (p_seek_danger I count_of scoring t s) = SdLower b /\ R_p I RI count_of scoring (snd (p_seek_danger I count_of scoring t s)) l.
+Proof. intros I strong RI DI CI count_of scoring. exact (phrase_seek_danger_below I strong RI DI CI count_of scoring). Qed.
+
+Print Assumptions C13_phrase_seek_danger_below.
